@@ -84,7 +84,7 @@ def GenWf(spec: str, x: ty.Any = None, y: ty.Any = None):
             t = GenWf(spec=json.dumps(nd["wf"]))
             plain = {k: _wire(nd[k], nodes, wfin) for k in ("x", "y") if k in nd}
         else:
-            t = Op(name=name, fail=nd.get("fail", ()))
+            t = (OpT if sp.get("typed") else Op)(name=name, fail=nd.get("fail", ()))
             plain = {k: _wire(nd[k], nodes, wfin) for k in ("a", "b") if k in nd}
         split_vals = {k: _wire(v, nodes, wfin) for k, v in nd.get("split_vals", {}).items()}
         for k, v in plain.items():
@@ -102,6 +102,15 @@ def GenWf(spec: str, x: ty.Any = None, y: ty.Any = None):
             o.out = out.o0
             out = o
         nodes[name] = out
+    for node_name, field, src in sp.get("post", []):  # connections made after the fact (can close a cycle)
+        setattr(workflow.this()[node_name].inputs, field, _wire(src, nodes, wfin))
     outs = [nodes[n].out for n in sp.get("outs", [])]
     outs += [None] * (NOUT - len(outs))
     return tuple(outs)
+
+
+@python.define
+def OpT(name: str, a: list, b: ty.Optional[list] = None, fail: ty.Any = ()) -> list:
+    """typed variant of Op (list in, list out)"""
+    _log(json.dumps([name, a, b], default=repr))
+    return [name, a] if b is None else [name, a, b]
